@@ -727,7 +727,7 @@ def run(ctx):
         max_injected_backend_failures=maxfault,
         alphabet=len(alphabet(quick)),
         frontier_left=len(frontier), violation_kinds=dict(kinds),
-        exhaustive=True,
+        exhaustive=(last_fraction == 1), exhaustive_to_depth=completed,
         rule='state = (reference model state, canonical driver + compiler '
              'connection state with ids by rank, both for the pickled state '
              'the server holds and the live object a sticky worker holds); '
